@@ -256,6 +256,9 @@ func run() {
 	write("Types", typesTxt)
 	header := "-- GENERATED by go2lean from the Go sources of package z80. DO NOT EDIT.\n"
 	var allMods []string
+	// data-only modules (tables, images, source pins, structural facts): NOT part of the `All` umbrella, so that an edit of
+	// memio.go, tinycpm.go, cmd/* or the zex tables does not invalidate the CPU proofs; the properties import them directly
+	var dataMods []string
 	perFile := map[string][]string{}
 	var modNames []string
 	for m := range mods {
@@ -362,13 +365,21 @@ func run() {
 	}
 	// zex tables and images (data only)
 	write("ZexData", genZexData(*repo))
-	allMods = append(allMods, "ZexData")
+	dataMods = append(dataMods, "ZexData")
 	// tinycpm BIOS pages (C18)
 	write("TinyCPM", genTinyCPM(*repo))
-	allMods = append(allMods, "TinyCPM")
+	dataMods = append(dataMods, "TinyCPM")
+	// cim2bin / cim2cas output programs (C19)
+	write("CimData", genCimData(*repo))
+	dataMods = append(dataMods, "CimData")
+	// memio.go source pin (C15)
+	write("MemioSource", genMemioSource(*repo))
+	dataMods = append(dataMods, "MemioSource")
+	write("TinyCPMSource", genSourcePin(*repo, "internal/tinycpm/tinycpm.go", "tinycpmSource"))
+	dataMods = append(dataMods, "TinyCPMSource")
 	// structural facts (C10)
 	write("Facts", t.genFacts())
-	allMods = append(allMods, "Facts")
+	dataMods = append(dataMods, "Facts")
 	// per-file umbrellas and All
 	var fts []string
 	for ft := range perFile {
@@ -437,7 +448,7 @@ func run() {
 	if err := os.WriteFile(filepath.Join(*outDir, "Manifest.json"), js, 0o644); err != nil {
 		panic(err)
 	}
-	fmt.Printf("go2lean: %d functions, %d arms, %d switches, %d modules\n", len(frs), len(t.arms), len(t.switches), len(allMods))
+	fmt.Printf("go2lean: %d functions, %d arms, %d switches, %d modules\n", len(frs), len(t.arms), len(t.switches), len(allMods)+len(dataMods))
 }
 
 func (t *tr) nodeText(n ast.Node) string {
